@@ -86,6 +86,7 @@ type genCert struct {
 	window         string
 	lifetimeOK     bool
 	currentlyValid bool
+	expired        bool
 	parses         bool
 }
 
@@ -102,7 +103,7 @@ func (g *genCert) brokenRule() string {
 		return "rsa:" + g.kind.name
 	case !g.lifetimeOK:
 		return "lifetime-over-14d"
-	case !g.currentlyValid && g.window == "expired":
+	case !g.currentlyValid && g.expired:
 		return "expired"
 	case !g.currentlyValid:
 		return "not-yet-valid"
@@ -184,6 +185,7 @@ func (p *keyPool) make(rng *rand.Rand, k certKind, w window, now time.Time) (*ge
 	g := &genCert{kind: k, raw: der, key: subject, nb: nb, na: na, window: w.name, parses: true}
 	g.lifetimeOK = na.Sub(nb) <= maxLifetime // "at most 14 days"
 	g.currentlyValid = !now.Before(nb) && !now.After(na)
+	g.expired = now.After(na)
 	// the labels must not be able to flip while the run lasts
 	for _, edge := range []time.Time{nb, na} {
 		if d := now.Sub(edge); d > -5*time.Minute && d < 5*time.Minute {
@@ -283,6 +285,9 @@ func verifierCases(r *run.R) {
 			cs = append(cs, map[string]any{"position": i, "kind": g.kind.name, "window": g.window, "not_before": ts(g.nb), "not_after": ts(g.na),
 				"sha256": fmt.Sprintf("%x", sum256(g.raw)), "breaks_rule": g.brokenRule(), "der": g.raw})
 		}
+		if !sigs.first(r, sig) {
+			return
+		}
 		r.Violation(sig, caseID, msg, map[string]any{"chain": cs, "hash_list": listString(list), "verifier_error": v.errText, "real_now": ts(now)})
 	}
 
@@ -304,7 +309,7 @@ func verifierCases(r *run.R) {
 			g := certs[k.name+"/"+w.name]
 			for _, hl := range hashLists {
 				caseID := fmt.Sprintf("verify/single/%s/%s/%s", k.name, w.name, hl.name)
-				if !r.Want(caseID) {
+				if !r.Want(caseID) || labelsStale(r, now) {
 					continue
 				}
 				list := hl.build(g.raw, other)
@@ -473,7 +478,7 @@ func verifierCases(r *run.R) {
 	n := r.Pick(300, 6000)
 	for i := 0; i < n && !r.TooMany(); i++ {
 		caseID := fmt.Sprintf("verify/random/%d", i)
-		if !r.Want(caseID) {
+		if !r.Want(caseID) || labelsStale(r, now) {
 			continue
 		}
 		rg := r.Rand(5, uint64(i))
@@ -541,7 +546,7 @@ func listenerOwnCertificates(r *run.R, now time.Time) {
 	n := r.Pick(40, 400)
 	for i := 0; i < n && !r.TooMany(); i++ {
 		caseID := fmt.Sprintf("verify/listener/%d", i)
-		if !r.Want(caseID) {
+		if !r.Want(caseID) || labelsStale(r, now) {
 			continue
 		}
 		rg := r.Rand(6, uint64(i))
